@@ -125,7 +125,7 @@ type hpConnRec struct {
 	Relayed bool   `json:"relayed"`
 	Limited bool   `json:"limited"`
 	Dir     string `json:"dir"`
-	Opened  int64  `json:"opened_ns"`
+	Opened  int64  `json:"opened_ns"` // -1: open before the service was created
 	Closed  int64  `json:"closed_ns"` // -1: still open at the end
 	peer    peer.ID
 }
@@ -504,7 +504,9 @@ func newHpHost(w *hpWorld) *hpHost {
 func (h *hpHost) ID() peer.ID                    { return hpLocal }
 func (h *hpHost) Network() network.Network       { return h.n }
 func (h *hpHost) Peerstore() peerstore.Peerstore { return h.ps }
-func (h *hpHost) Addrs() []ma.Multiaddr          { return []ma.Multiaddr{ma.StringCast("/ip4/7.7.7.7/tcp/4001")} }
+func (h *hpHost) Addrs() []ma.Multiaddr {
+	return []ma.Multiaddr{ma.StringCast("/ip4/7.7.7.7/tcp/4001")}
+}
 func (h *hpHost) SetStreamHandler(pid protocol.ID, f network.StreamHandler) {
 	if pid != holepunch.Protocol {
 		panic("unexpected protocol " + pid)
